@@ -4827,6 +4827,8 @@ impl Command {
             .unroll_args_in_group(g)
             .iter()
             .filter_map(|x| self.find(x))
+            // Hidden arguments are not advertised
+            .filter(|x| !x.is_hide_set())
             .map(|x| {
                 if x.is_positional() {
                     // Print val_name for positional arguments. e.g. <file_name>
